@@ -12,7 +12,8 @@
 // Objects: function registers f0 f1 (std::shared_ptr<PolyFunction>), wrapper registers w0..w3 (each one of the
 // three library classes, cls 0 = ReparametrizationFunctionWrapper, 1 = ...DerivableFirstOrderWrapper,
 // 2 = ...DerivableSecondOrderWrapper; the library's own objects, no subclass), a current wrapper register.
-//   f.new g n {shape lo hi value c q e}^n -> ok | exc:constraint       (a new function object in register g)
+//   f.new g n {shape lo hi value c q e}^n -> ok | exc:constraint       (a new function object in register g; the
+//                                       function in register 1 has the namespace "m.": its parameters are m.p0, m.p1, ...)
 //   w.mk k g cls sel                 -> x.. ; o.. ; p..   wrapper register k := new <cls>(f_g) when sel = `all` (first
 //                                       constructor), else new <cls>(f_g, list) (second constructor) with list = the
 //                                       comma separated items of sel in that order: `i` a copy of the function's
@@ -31,11 +32,13 @@
 //   w.set m {i x}^m                  -> f ; p.. ; fp..          f(list of plain Parameter(p<i>, x)); p = function's own
 //                                       values, fp = the wrapper's copy; i = function index, any order
 //   w.touch m {i}^m                  -> f ; p.. ; fp..          (f() with the current values of the named coordinates)
-//   w.get                            -> getValue() ; function().getValue() ; same   (same = getFunction() is the
+//   w.get                            -> getValue() ; function().getValue() ; same ; p..   (same = getFunction() is the
 //                                       function object the wrapper was built on / copied / assigned from)
+//   w.names                          -> pn.. ; fpn..            (names of parameters_ / of functionParameters_)
 //   w.pv i x | w.all x.. | w.match m {i x}^m | w.pvs m {i x}^m -> getValue() ; p.. ; fp..
 //                                       inherited setParameterValue / setAllParametersValues / matchParametersValues /
 //                                       setParametersValues
+//   w.fire                           -> getValue() ; p.. ; fp..   (fireParameterChanged(empty list), called directly)
 //   w.en which yn                    -> wrapper's getter, function's two switches
 //   w.d1 i | w.d2 i j                -> value
 //   w.fd i h                         -> f- f0 f+ a- a0 a+ b0   (a = wrapper d1_i, b0 = wrapper d2_ii; class 2)
@@ -65,7 +68,7 @@ class PolyFunction :
 {
 public:
   std::vector<double> c_, q_, e_;
-  PolyFunction() : AbstractParametrizable("") {}
+  PolyFunction(const std::string& ns = "") : AbstractParametrizable(ns) {}
   PolyFunction* clone() const { return new PolyFunction(*this); }
   void add(const std::string& name, double value, std::shared_ptr<ConstraintInterface> cons, double c, double q, double e)
   {
@@ -74,7 +77,8 @@ public:
   }
   size_t n() const { return c_.size(); }
   double p(size_t i) const { return getParameters()[i].getValue(); }
-  size_t idx(const std::string& v) const { return static_cast<size_t>(std::stoul(v.substr(1))); }
+  // the name of parameter i is <namespace>p<i>
+  size_t idx(const std::string& v) const { return static_cast<size_t>(std::stoul(v.substr(v.rfind('p') + 1))); }
   void setParameters(const ParameterList& pl) { matchParametersValues(pl); }
   double getValue() const
   {
@@ -147,8 +151,9 @@ static std::shared_ptr<ConstraintInterface> mkConstraint(const std::string& shap
   return nullptr;
 }
 
-static std::string pname(size_t i) { return "p" + std::to_string(i); }
-static size_t pidx(const std::string& name) { return static_cast<size_t>(std::stoul(name.substr(1))); }
+// parameter i of a function is named <namespace>p<i>; function register 1 has the namespace "m.", register 0 none
+static std::string pname(const PolyFunction& fn, size_t i) { return fn.getNamespace() + "p" + std::to_string(i); }
+static size_t pidx(const std::string& name) { return static_cast<size_t>(std::stoul(name.substr(name.rfind('p') + 1))); }
 
 static int clsOf(const W0& w)
 {
@@ -160,10 +165,10 @@ static int clsOf(const W0& w)
 static PolyFunction& fnOf(W0& w) { return dynamic_cast<PolyFunction&>(w.function()); }
 
 // a list of plain parameters p<i> = x
-static ParameterList plainList(const Toks& t, size_t from, size_t m)
+static ParameterList plainList(const PolyFunction& fn, const Toks& t, size_t from, size_t m)
 {
   ParameterList pl;
-  for (size_t j = 0; j < m; ++j) pl.addParameter(Parameter(pname(toU(t[from + 2 * j])), dv(t[from + 2 * j + 1])));
+  for (size_t j = 0; j < m; ++j) pl.addParameter(Parameter(pname(fn, toU(t[from + 2 * j])), dv(t[from + 2 * j + 1])));
   return pl;
 }
 
@@ -171,7 +176,7 @@ static ParameterList plainList(const Toks& t, size_t from, size_t m)
 static double wsetOne(W0& w, size_t i, double x)
 {
   ParameterList pl;
-  pl.addParameter(Parameter(pname(i), x));
+  pl.addParameter(Parameter(pname(fnOf(w), i), x));
   return w.f(pl);
 }
 
@@ -205,11 +210,11 @@ static std::string dumpW(const W0& w, bool same)
 
 static void newFn(State& s, size_t g, const Toks& t, size_t n, size_t off)
 {
-  auto fn = std::make_shared<PolyFunction>();
+  auto fn = std::make_shared<PolyFunction>(g == 1 ? "m." : "");
   for (size_t i = 0; i < n; ++i)
   {
     size_t b = off + 7 * i;
-    fn->add(pname(i), dv(t[b + 3]), mkConstraint(t[b], dv(t[b + 1]), dv(t[b + 2])), dv(t[b + 4]), dv(t[b + 5]), dv(t[b + 6]));
+    fn->add(pname(*fn, i), dv(t[b + 3]), mkConstraint(t[b], dv(t[b + 1]), dv(t[b + 2])), dv(t[b + 4]), dv(t[b + 5]), dv(t[b + 6]));
   }
   s.fn[g] = fn;
 }
@@ -233,11 +238,11 @@ static std::string mkW(State& s, size_t k, size_t g, int cls, const std::string&
       std::string tok = sel.substr(pos, c - pos); pos = c + 1;
       size_t at = tok.find('@');
       if (tok == "f") pl.addParameter(Parameter("zz", 1.));
-      else if (at == std::string::npos) pl.addParameter(fn->parameter(pname(toU(tok))));
+      else if (at == std::string::npos) pl.addParameter(fn->getParameters().parameter(pname(*fn, toU(tok))));
       else
       {
         // a copy of the function's parameter (same constraint) carrying another value; raises when rejected
-        Parameter q(fn->parameter(pname(toU(tok.substr(0, at)))));
+        Parameter q(fn->getParameters().parameter(pname(*fn, toU(tok.substr(0, at)))));
         q.setValue(dv(tok.substr(at + 1)));
         pl.addParameter(q);
       }
@@ -307,7 +312,7 @@ static std::string doW(State& s, const Toks& t)
     size_t g = toU(t[1]), m = toU(t[2]);
     if (g >= 2 || !s.fn[g]) return "bad-op";
     for (size_t j = 0; j < m; ++j) if (toU(t[3 + 2 * j]) >= s.fn[g]->n()) return "bad-op";
-    ParameterList pl = plainList(t, 3, m);
+    ParameterList pl = plainList(*s.fn[g], t, 3, m);
     s.fn[g]->setParameters(pl);
     return hx(s.fn[g]->getValue()) + " ;" + fvals(*s.fn[g]);
   }
@@ -327,20 +332,31 @@ static std::string doW(State& s, const Toks& t)
     if (touch)
     {
       std::vector<std::string> names;
-      for (size_t j = 0; j < m; ++j) names.push_back(pname(toU(t[2 + j])));
+      for (size_t j = 0; j < m; ++j) names.push_back(pname(fn, toU(t[2 + j])));
       pl = w.getParameters().createSubList(names);
     }
-    else pl = plainList(t, 2, m);
+    else pl = plainList(fn, t, 2, m);
     double f = w.f(pl);
     return hx(f) + " ;" + fvals(fn) + " ;" + fpvals(w);
   }
+  if (o == "w.names")
+  {
+    std::string r;
+    for (size_t i = 0; i < w.getNumberOfParameters(); ++i) r += std::to_string(pidx(w.getParameters()[i].getName())) + " ";
+    r += ";";
+    const ParameterList& fps = Peek::fps(w);
+    for (size_t i = 0; i < fps.size(); ++i) r += " " + (fps[i].getName() == "zz" ? std::string("1000000") : std::to_string(pidx(fps[i].getName())));
+    return r;
+  }
   if (o == "w.get")
   {
-    return hx(w.getValue()) + " ; " + hx(w.function().getValue()) + " ; " + (w.getFunction().get() == s.wfn[s.cur] ? "1" : "0");
+    std::string r = hx(w.getValue()) + " ; " + hx(w.function().getValue()) + " ; " + (w.getFunction().get() == s.wfn[s.cur] ? "1" : "0") + " ;";
+    return r + fvals(fn);
   }
-  if (o == "w.pv" || o == "w.all" || o == "w.match" || o == "w.pvs")
+  if (o == "w.pv" || o == "w.all" || o == "w.match" || o == "w.pvs" || o == "w.fire")
   {
-    if (o == "w.pv") w.setParameterValue(pname(toU(t[1])), dv(t[2]));
+    if (o == "w.fire") w.fireParameterChanged(ParameterList());
+    else if (o == "w.pv") w.setParameterValue("p" + std::to_string(toU(t[1])), dv(t[2]));   // name without namespace (AbstractParametrizable.h:63-67)
     else if (o == "w.all")
     {
       if (t.size() - 1 != w.getNumberOfParameters()) return "bad-op";
@@ -350,7 +366,7 @@ static std::string doW(State& s, const Toks& t)
     }
     else
     {
-      ParameterList pl = plainList(t, 2, toU(t[1]));
+      ParameterList pl = plainList(fn, t, 2, toU(t[1]));
       if (o == "w.match") w.matchParametersValues(pl); else w.setParametersValues(pl);
     }
     return hx(w.getValue()) + " ;" + fvals(fn) + " ;" + fpvals(w);
@@ -362,35 +378,35 @@ static std::string doW(State& s, const Toks& t)
     if (t[1] == "2" && w2) { w2->enableSecondOrderDerivatives(yn); return std::string(w2->enableSecondOrderDerivatives() ? "1" : "0") + (fn.d1on_ ? " 1" : " 0") + (fn.d2on_ ? " 1" : " 0"); }
     return "bad-op";
   }
-  if (o == "w.d1") { size_t i = toU(t[1]); if (!w1 || i >= n) return "bad-op"; return hx(w1->getFirstOrderDerivative(pname(i))); }
+  if (o == "w.d1") { size_t i = toU(t[1]); if (!w1 || i >= n) return "bad-op"; return hx(w1->getFirstOrderDerivative(pname(fn, i))); }
   if (o == "w.d2")
   {
     size_t i = toU(t[1]), j = toU(t[2]);
     if (!w2 || i >= n || j >= n) return "bad-op";
-    return hx(i == j ? w2->getSecondOrderDerivative(pname(i)) : w2->getSecondOrderDerivative(pname(i), pname(j)));
+    return hx(i == j ? w2->getSecondOrderDerivative(pname(fn, i)) : w2->getSecondOrderDerivative(pname(fn, i), pname(fn, j)));
   }
   if (o == "w.fd" || o == "w.fd1")
   {
     bool second = (o == "w.fd");
     size_t i = toU(t[1]); double h = dv(t[2]);
     if ((second ? !w2 : !w1) || i >= n) return "bad-op";
-    double x = w.parameter(pname(i)).getValue();
-    double fm = wsetOne(w, i, x - h); double am = w1->getFirstOrderDerivative(pname(i));
-    double fp = wsetOne(w, i, x + h); double ap = w1->getFirstOrderDerivative(pname(i));
-    double f0 = wsetOne(w, i, x); double a0 = w1->getFirstOrderDerivative(pname(i));
-    double b0 = second ? w2->getSecondOrderDerivative(pname(i)) : 0.;
+    double x = w.getParameters().parameter(pname(fn, i)).getValue();
+    double fm = wsetOne(w, i, x - h); double am = w1->getFirstOrderDerivative(pname(fn, i));
+    double fp = wsetOne(w, i, x + h); double ap = w1->getFirstOrderDerivative(pname(fn, i));
+    double f0 = wsetOne(w, i, x); double a0 = w1->getFirstOrderDerivative(pname(fn, i));
+    double b0 = second ? w2->getSecondOrderDerivative(pname(fn, i)) : 0.;
     return hx(fm) + " " + hx(f0) + " " + hx(fp) + " " + hx(am) + " " + hx(a0) + " " + hx(ap) + " " + hx(b0);
   }
   if (o == "w.fdx")
   {
     size_t i = toU(t[1]), j = toU(t[2]); double h = dv(t[3]);
     if (!w2 || i >= n || j >= n || i == j) return "bad-op";
-    w.parameter(pname(i));   // both coordinates must belong to the wrapper
-    double x = w.parameter(pname(j)).getValue();
-    wsetOne(w, j, x - h); double am = w2->getFirstOrderDerivative(pname(i));
-    wsetOne(w, j, x + h); double ap = w2->getFirstOrderDerivative(pname(i));
+    w.getParameters().parameter(pname(fn, i));   // both coordinates must belong to the wrapper
+    double x = w.getParameters().parameter(pname(fn, j)).getValue();
+    wsetOne(w, j, x - h); double am = w2->getFirstOrderDerivative(pname(fn, i));
+    wsetOne(w, j, x + h); double ap = w2->getFirstOrderDerivative(pname(fn, i));
     wsetOne(w, j, x);
-    double c0 = w2->getSecondOrderDerivative(pname(i), pname(j));
+    double c0 = w2->getSecondOrderDerivative(pname(fn, i), pname(fn, j));
     return hx(am) + " " + hx(ap) + " " + hx(c0);
   }
   return "bad-op";
